@@ -6,8 +6,10 @@ get.go (FirstFound), has.go, the `locate`/`Walk` methods, node.go; for `Get` the
 to the work-list machine (C05.machine_eq_skeleton), for the others it is tied by the correspondence run.
 The theorems reduce agreement to equalities of selection functions (index arithmetic).
 
-Deviations of the pinned code are flags of `Cfg`; every theorem is parametric in the configuration and
-names the flags it needs off (they are off in `Cfg.fixed`, the code after the proposed fixes). -/
+Deviations are flags of `Cfg`; the general theorems are parametric in the configuration and name the flags
+they need off. `*_current` are the statements for **the code as it is now** (`Cfg.pinned`, after the fixes
+baff053, 0e0caaf, fa2ed77, 5d79291, 360668e, 1af5385, 21977aa): only `locStartClamp` (pinned by the suite) and
+the typed-data flags are still on. `*_before_*` document what failed before a fix (`Cfg.original`). -/
 set_option linter.unusedSimpArgs false
 namespace OjgVerif.C11
 open OjgVerif OjgVerif.JPath
@@ -54,23 +56,33 @@ theorem C11_has (cfg : Cfg) (x : List Frag) (d : JV)
 example : Cfg.pinned.descentSiblings = false ∨
     noDescAfter [.descent, .child [97], .nth 0, .filter (fun _ => true)] = true := Or.inr (by decide)
 
+/-- **Has ⇔ Get non-empty, for the code as it is now**: every path, every tree -/
+theorem C11_has_current (x : List Frag) (d : JV) :
+    hasM Cfg.pinned Rep.simple x d = !(getM Cfg.pinned Rep.simple x d).isEmpty :=
+  C11_has Cfg.pinned x d (Or.inl rfl)
+
+theorem C11_first_current (x : List Frag) (d : JV) :
+    firstM Cfg.pinned Rep.simple x d = (getM Cfg.pinned Rep.simple x d).head? :=
+  C11_first Cfg.pinned x d
+
 theorem C11_has_fixed (x : List Frag) (d : JV) :
     hasM Cfg.fixed Rep.simple x d = !(getM Cfg.fixed Rep.simple x d).isEmpty :=
   C11_has Cfg.fixed x d (Or.inl rfl)
 
-def C11_has_full : Prop :=
-  ∀ (x : List Frag) (d : JV), hasM Cfg.pinned Rep.simple x d = !(getM Cfg.pinned Rep.simple x d).isEmpty
+def C11_has_full (cfg : Cfg) : Prop :=
+  ∀ (x : List Frag) (d : JV), hasM cfg Rep.simple x d = !(getM cfg Rep.simple x d).isEmpty
 
-/-- `$[?(true)]..a` on `[1,[{"a":5}]]`: Get hands the leaf `1` to the descent first, which sets the flag on
-the shared marker, and `[{"a":5}]` is not descended into; Has drops the leaf without setting the flag -/
+/-- `$[?(true)]..a` on `[1,[{"a":5}]]`: Get handed the leaf `1` to the descent first, which set the flag on
+the shared marker, and `[{"a":5}]` was not descended into; Has dropped the leaf without setting the flag -/
 def w4path : List Frag := [.filter (fun _ => true), .descent, .child [97]]
 def w4data : JV := .arr [.int 1, .arr [.obj [([97], .int 5)]]]
 
-theorem C11_has_full_false : ¬ C11_has_full := by
+/-- before baff053 Has and Get could disagree; now `C11_has_full Cfg.pinned` is `C11_has_current` -/
+theorem C11_has_full_false_before_baff053 : ¬ C11_has_full Cfg.original := by
   intro h
   have h1 := h w4path w4data
-  have h2 : hasM Cfg.pinned Rep.simple w4path w4data = true := by decide
-  have h3 : (getM Cfg.pinned Rep.simple w4path w4data).isEmpty = true := by decide
+  have h2 : hasM Cfg.original Rep.simple w4path w4data = true := by decide
+  have h3 : (getM Cfg.original Rep.simple w4path w4data).isEmpty = true := by decide
   rw [h2, h3] at h1
   simp at h1
 
@@ -82,85 +94,122 @@ Walk, `walkDescentNoSelf`) both report exactly the locations the path denotes, h
 `C05.C05_located` — exactly the locations of Get's results; as multisets: Locate visits a descent parents
 first and a filter back to front, Get children first and front to back. -/
 
-theorem C11_locate (cfg : Cfg) (hn : cfg.locNegEnd = false) (hc : cfg.locStartClamp = false)
-    (x : List Frag) (d : JV) (hx : x ≠ [] ∨ cfg.locateRoot = false)
+/-- the path-level form of `ClampFree`: the start clamp is off, or no slice of the path has a positive start -/
+def ClampFreePath (cfg : Cfg) (x : List Frag) : Prop :=
+  cfg.locStartClamp = false ∨ (cfg.locEmptyArray = false ∧ x.all lowStart = true)
+
+theorem clampFree_of_path (cfg : Cfg) (x : List Frag) (h : ClampFreePath cfg x) : ∀ f ∈ x, ClampFree cfg f := by
+  intro f hf
+  rcases h with h | ⟨h1, h2⟩
+  · exact Or.inl h
+  · exact Or.inr ⟨h1, (List.all_eq_true.mp h2) f hf⟩
+
+theorem C11_locate (cfg : Cfg) (hn : cfg.locNegEnd = false) (x : List Frag) (d : JV)
+    (hc : ClampFreePath cfg x) (hx : x ≠ [] ∨ cfg.locateRoot = false)
     (ht : endsInDescent x = false) (hz : (jsize d : Int) ≤ maxEnd) :
     (locateM cfg Rep.simple x d).Perm (eval x d) ∧ Locate.fault cfg Rep.simple x d = false := by
-  refine ⟨?_, locate_fault cfg hn hc x d⟩
+  refine ⟨?_, locate_fault cfg hn x d (clampFree_of_path cfg x hc)⟩
   cases x with
   | nil =>
     rcases hx with h | h
     · exact absurd rfl h
     · simp [locateM, h, eval]
-  | cons f r => exact locate_perm_eval cfg hn hc (f :: r) d ht hz
+  | cons f r => exact locate_perm_eval cfg hn (f :: r) d (clampFree_of_path cfg _ hc) ht hz
 
 /-- Locate against Get itself (the property's own comparison) -/
-theorem C11_locate_get (cfg : Cfg) (hn : cfg.locNegEnd = false) (hc : cfg.locStartClamp = false)
-    (x : List Frag) (d : JV) (hx : x ≠ [] ∨ cfg.locateRoot = false)
+theorem C11_locate_get (cfg : Cfg) (hn : cfg.locNegEnd = false) (x : List Frag) (d : JV)
+    (hc : ClampFreePath cfg x) (hx : x ≠ [] ∨ cfg.locateRoot = false)
     (hs : cfg.descentSiblings = false ∨ noDescAfter x = true)
     (he : cfg.innerEmptySlice = false ∨ x.dropLast.all narrow = true)
     (ht : endsInDescent x = false) (hz : (jsize d : Int) ≤ maxEnd) :
     (locateM cfg Rep.simple x d).Perm (getS cfg Rep.simple x d) := by
   rw [C05.C05_located cfg x d hs he ht hz]
-  exact (C11_locate cfg hn hc x d hx ht hz).1
+  exact (C11_locate cfg hn x d hc hx ht hz).1
 
-theorem C11_walk (cfg : Cfg) (hn : cfg.locNegEnd = false) (hc : cfg.locStartClamp = false)
-    (hw : cfg.walkDescentNoSelf = false) (x : List Frag) (d : JV)
+theorem C11_walk (cfg : Cfg) (hn : cfg.locNegEnd = false) (hw : cfg.walkDescentNoSelf = false)
+    (x : List Frag) (d : JV) (hc : ClampFreePath cfg x)
     (ht : endsInDescent x = false) (hz : (jsize d : Int) ≤ maxEnd) :
     (walkM cfg Rep.simple x d).Perm (eval x d) :=
-  walk_perm_eval cfg hn hc hw x d ht hz
+  walk_perm_eval cfg hn hw x d (clampFree_of_path cfg x hc) ht hz
 
-theorem C11_walk_get (cfg : Cfg) (hn : cfg.locNegEnd = false) (hc : cfg.locStartClamp = false)
-    (hw : cfg.walkDescentNoSelf = false) (x : List Frag) (d : JV)
+theorem C11_walk_get (cfg : Cfg) (hn : cfg.locNegEnd = false) (hw : cfg.walkDescentNoSelf = false)
+    (x : List Frag) (d : JV) (hc : ClampFreePath cfg x)
     (hs : cfg.descentSiblings = false ∨ noDescAfter x = true)
     (he : cfg.innerEmptySlice = false ∨ x.dropLast.all narrow = true)
     (ht : endsInDescent x = false) (hz : (jsize d : Int) ≤ maxEnd) :
     (walkM cfg Rep.simple x d).Perm (getS cfg Rep.simple x d) := by
   rw [C05.C05_located cfg x d hs he ht hz]
-  exact C11_walk cfg hn hc hw x d ht hz
+  exact C11_walk cfg hn hw x d hc ht hz
 
-/-- non-trivial instances of the hypotheses of `C11_locate_get` / `C11_walk_get`: the repaired
-configuration satisfies the flag hypotheses, `$.a[1:3]..b` the path hypotheses -/
-example : Cfg.fixed.locNegEnd = false ∧ Cfg.fixed.locStartClamp = false ∧ Cfg.fixed.walkDescentNoSelf = false ∧
-    endsInDescent [.child [97], .slice (some 1) (some 3) none, .descent, .child [98]] = false := by decide
+/-- **Locate and Walk for the code as it is now**: exactly the locations of Get's results and no fault, for
+every path not ending in a bare descent in which no slice has a positive start (the start clamp of
+`startEndStep`, which the suite pins, is the one deviation left: known finding C11-locate-start-clamp) -/
+theorem C11_locate_walk_current (x : List Frag) (d : JV) (hlow : x.all lowStart = true)
+    (ht : endsInDescent x = false) (hz : (jsize d : Int) ≤ maxEnd) :
+    (locateM Cfg.pinned Rep.simple x d).Perm (getS Cfg.pinned Rep.simple x d) ∧
+    Locate.fault Cfg.pinned Rep.simple x d = false ∧
+    (walkM Cfg.pinned Rep.simple x d).Perm (getS Cfg.pinned Rep.simple x d) :=
+  ⟨C11_locate_get Cfg.pinned rfl x d (Or.inr ⟨rfl, hlow⟩) (Or.inr rfl) (Or.inl rfl) (Or.inl rfl) ht hz,
+   (C11_locate Cfg.pinned rfl x d (Or.inr ⟨rfl, hlow⟩) (Or.inr rfl) ht hz).2,
+   C11_walk_get Cfg.pinned rfl rfl x d (Or.inr ⟨rfl, hlow⟩) (Or.inl rfl) (Or.inl rfl) ht hz⟩
 
-/-- after the proposed fixes: every path not ending in a bare descent -/
+/-- non-trivial instance of the hypotheses of `C11_locate_walk_current`: `$.a[:3]..b[-2:]` -/
+example : [Frag.child [97], .slice none (some 3) none, .descent, .child [98], .slice (some (-2)) none none].all lowStart = true ∧
+    endsInDescent [.child [97], .slice none (some 3) none, .descent, .child [98], .slice (some (-2)) none none] = false := by
+  decide
+
+/-- every flag off: every path not ending in a bare descent -/
 theorem C11_locate_walk_fixed (x : List Frag) (d : JV) (ht : endsInDescent x = false)
     (hz : (jsize d : Int) ≤ maxEnd) :
     (locateM Cfg.fixed Rep.simple x d).Perm (getS Cfg.fixed Rep.simple x d) ∧
     (walkM Cfg.fixed Rep.simple x d).Perm (getS Cfg.fixed Rep.simple x d) :=
-  ⟨C11_locate_get Cfg.fixed rfl rfl x d (Or.inr rfl) (Or.inl rfl) (Or.inl rfl) ht hz,
-   C11_walk_get Cfg.fixed rfl rfl rfl x d (Or.inl rfl) (Or.inl rfl) ht hz⟩
+  ⟨C11_locate_get Cfg.fixed rfl x d (Or.inl rfl) (Or.inr rfl) (Or.inl rfl) (Or.inl rfl) ht hz,
+   C11_walk_get Cfg.fixed rfl rfl x d (Or.inl rfl) (Or.inl rfl) (Or.inl rfl) ht hz⟩
 
-def C11_locate_full : Prop :=
+def C11_locate_full (cfg : Cfg) : Prop :=
   ∀ (x : List Frag) (d : JV), endsInDescent x = false → (jsize d : Int) ≤ maxEnd →
-    (locateM Cfg.pinned Rep.simple x d).Perm (getS Cfg.pinned Rep.simple x d)
+    (locateM cfg Rep.simple x d).Perm (getS cfg Rep.simple x d)
 
-/-- `$[0:-1]` on `[1,2,3]`: Locate reports three locations, Get two elements -/
+def C11_walk_full (cfg : Cfg) : Prop :=
+  ∀ (x : List Frag) (d : JV), endsInDescent x = false → (jsize d : Int) ≤ maxEnd →
+    (walkM cfg Rep.simple x d).Perm (getS cfg Rep.simple x d)
+
+/-- `$[5:0:-1]` on `[1,2,3]`: the start is clamped to the last element, Locate and Walk report `$[2] $[1]`,
+Get nothing (still so: pinned by TestExprLocateAny) -/
+def w8path : List Frag := [.slice (some 5) (some 0) (some (-1))]
+def w8data : JV := .arr [.int 1, .int 2, .int 3]
+
+theorem C11_locate_full_false : ¬ C11_locate_full Cfg.pinned := by
+  intro h
+  have h1 := (h w8path w8data (by decide) (by decide)).length_eq
+  have h2 : (locateM Cfg.pinned Rep.simple w8path w8data).length = 2 := by decide
+  have h3 : (getS Cfg.pinned Rep.simple w8path w8data).length = 0 := by decide
+  omega
+
+theorem C11_walk_full_false : ¬ C11_walk_full Cfg.pinned := by
+  intro h
+  have h1 := (h w8path w8data (by decide) (by decide)).length_eq
+  have h2 : (walkM Cfg.pinned Rep.simple w8path w8data).length = 2 := by decide
+  have h3 : (getS Cfg.pinned Rep.simple w8path w8data).length = 0 := by decide
+  omega
+
+/-- `$[0:-1]` on `[1,2,3]`: before fa2ed77 Locate reported three locations, Get two elements; now two -/
 def w5path : List Frag := [.slice (some 0) (some (-1)) none]
 def w5data : JV := .arr [.int 1, .int 2, .int 3]
 
-theorem C11_locate_full_false : ¬ C11_locate_full := by
-  intro h
-  have h1 := (h w5path w5data (by decide) (by decide)).length_eq
-  have h2 : (locateM Cfg.pinned Rep.simple w5path w5data).length = 3 := by decide
-  have h3 : (getS Cfg.pinned Rep.simple w5path w5data).length = 2 := by decide
-  omega
+theorem C11_locate_negative_end_before_fa2ed77 :
+    (locateM Cfg.original Rep.simple w5path w5data).length = 3 ∧
+    (getS Cfg.original Rep.simple w5path w5data).length = 2 ∧
+    (locateM Cfg.pinned Rep.simple w5path w5data).length = 2 := by decide
 
-def C11_walk_full : Prop :=
-  ∀ (x : List Frag) (d : JV), endsInDescent x = false → (jsize d : Int) ≤ maxEnd →
-    (walkM Cfg.pinned Rep.simple x d).Perm (getS Cfg.pinned Rep.simple x d)
-
-/-- `$..a` on `{"a":1}`: Walk reports nothing -/
+/-- `$..a` on `{"a":1}`: before 5d79291 Walk reported nothing; now the one location -/
 def w6path : List Frag := [.descent, .child [97]]
 def w6data : JV := .obj [([97], .int 1)]
 
-theorem C11_walk_full_false : ¬ C11_walk_full := by
-  intro h
-  have h1 := (h w6path w6data (by decide) (by decide)).length_eq
-  have h2 : (walkM Cfg.pinned Rep.simple w6path w6data).length = 0 := by decide
-  have h3 : (getS Cfg.pinned Rep.simple w6path w6data).length = 1 := by decide
-  omega
+theorem C11_walk_descent_self_before_5d79291 :
+    (walkM Cfg.original Rep.simple w6path w6data).length = 0 ∧
+    (getS Cfg.original Rep.simple w6path w6data).length = 1 ∧
+    (walkM Cfg.pinned Rep.simple w6path w6data).length = 1 := by decide
 
 /-! ## GetNodes, FirstNode (gen data) and Get on other representations -/
 
@@ -224,17 +273,27 @@ theorem C11_repr_user (cfg : Cfg) (x : List Frag) (d : JV) :
     | slice s e t => cases v <;> simp [Get.sel, Get.last, Get.sliceLast, Get.normFor, Rep.simple]
     | _ => rfl
 
-def C11_nodes_full : Prop := ∀ (x : List Frag) (d : JV), nodesM Cfg.pinned x d = getM Cfg.pinned Rep.gen x d
+/-- **for the code as it is now**: GetNodes is Get on gen data, FirstNode the first of it, Get on gen data is
+Get on simple data — every path, every tree -/
+theorem C11_nodes_current (x : List Frag) (d : JV) :
+    nodesM Cfg.pinned x d = getM Cfg.pinned Rep.gen x d ∧
+    firstNodeM Cfg.pinned x d = (nodesM Cfg.pinned x d).head? ∧
+    getM Cfg.pinned Rep.gen x d = getM Cfg.pinned Rep.simple x d ∧
+    getM Cfg.pinned ⟨.indexed, .keyed⟩ x d = getM Cfg.pinned Rep.simple x d :=
+  ⟨C11_nodes Cfg.pinned rfl rfl rfl rfl x d (Or.inl rfl), C11_firstnode Cfg.pinned rfl rfl rfl x d,
+   C11_repr_gen Cfg.pinned rfl x d, C11_repr_user Cfg.pinned x d⟩
 
-/-- `$[5]`-style union `$[5,0]` on `[7]`: GetNodes returns a nil and the element -/
+def C11_nodes_full (cfg : Cfg) : Prop := ∀ (x : List Frag) (d : JV), nodesM cfg x d = getM cfg Rep.gen x d
+
+/-- `$[5,0]` on `[7]`: before 360668e GetNodes returned a nil and the element -/
 def w7path : List Frag := [.union [.idx 5, .idx 0]]
 def w7data : JV := .arr [.int 7]
 
-theorem C11_nodes_full_false : ¬ C11_nodes_full := by
+theorem C11_nodes_full_false_before_360668e : ¬ C11_nodes_full Cfg.original := by
   intro h
   have h1 := congrArg List.length (h w7path w7data)
-  have h2 : (nodesM Cfg.pinned w7path w7data).length = 2 := by decide
-  have h3 : (getM Cfg.pinned Rep.gen w7path w7data).length = 1 := by decide
+  have h2 : (nodesM Cfg.original w7path w7data).length = 2 := by decide
+  have h3 : (getM Cfg.original Rep.gen w7path w7data).length = 1 := by decide
   omega
 
 end OjgVerif.C11
